@@ -23,6 +23,14 @@ TIWLS ==
                                    IWLSCorrection(Ev.x, Ev.xp, Ev.s, Ev.g_x, Ev.F_x, Ev.g_xp, Ev.F_xp))))
   /\ Step
 
+\* large blocks (dimension 40): the two Gaussian proposal log-densities are computed by the driver in float64 (the
+\* spec's exact linear algebra is for small blocks), the spec combines them into the acceptance probability
+TIWLSBig ==
+  /\ IsEvent("iwls_big")
+  /\ Chk("iwls_reported_acceptance_is_mh_ratio_with_gaussian_proposal_densities",
+         Close(Ev.acc, ReportedAcc(Ev.lp_x, Ev.lp_xp, FSub(Ev.bwd, Ev.fwd))))
+  /\ Step
+
 TMH ==
   /\ IsEvent("mh")
   /\ Chk("mh_reported_acceptance_uses_declared_correction",
@@ -34,7 +42,9 @@ TMoved ==
   /\ IsEvent("moved")
   /\ Chk("rejected_transition_leaves_position_unchanged", Ev.moved \/ Ev.after = Ev.before)
   /\ Chk("reported_probability_in_unit_interval", FLe("0.0", Ev.acc) /\ FLe(Ev.acc, "1.0"))
+  \* on a target whose density is finite everywhere no ratio is undefined (error code 90 = NaN ratio)
+  /\ Chk("no_undefined_ratio_on_a_regular_target", Hdr.regular => Ev.code = 0)
   /\ Step
 
-TNext == TRW \/ TIWLS \/ TMH \/ TMoved
+TNext == TRW \/ TIWLS \/ TIWLSBig \/ TMH \/ TMoved
 =============================================================================
